@@ -204,7 +204,7 @@ PROPS["C12"] = {
     "feature": "c12",
         "mem_gb": 20,
     "tiers": {"quick": [(DAON, ["c12_q_"])], "thorough": [(DAON, ["c12_q_", "c12_t_"]), (DAOFF, ["c12_q_"])], "probe": [(DAON, ["c12_p_"])]},
-    "overrides": [(r"_t_", {"mem_gb": 40, "timeout": {"quick": 900, "thorough": 5400}})],
+    "overrides": [(r"_t_", {"mem_gb": 40, "timeout": {"quick": 1500, "thorough": 5400}})],
     "functions": ["BitAnd/BitOr for &SeqSlice<Iupac>", "Seq::bit_and/bit_or", "contains on Seq<Iupac> and SeqSlice<Iupac>", "Iupac one-hot encoding, complement table"],
     "bounds": {"quick": "symbols: all 256 pairs decided by the solver (union, intersection, gap for the empty set, complement distributes); sequences: borrowed "
                         "operands of ONE symbol at independent offsets (0/4 and 15/7, 15 = last symbol of a word), owned operands (bit_or/bit_and) of 2 symbols, "
@@ -243,7 +243,7 @@ PROPS["C19"] = {
 }
 
 PROPS["C18"] = {
-    "timeout": {"quick": 900, "thorough": 3600, "probe": 1500},
+    "timeout": {"quick": 1500, "thorough": 3600, "probe": 1500},
     "feature": "c18",
     "tiers": tiers("C18"),
     "mem_gb": 20,
